@@ -36,6 +36,7 @@ type fileCfg struct {
 	chans  bool     // T-chan
 	goFns  []string // T-go: enclosing function names whose go statements become threads
 	consts map[string]string
+	gates  map[string]string // function name -> gate name (T-gate)
 }
 
 type report struct {
@@ -75,7 +76,7 @@ func main() {
 		"pkg/adaptation/adaptation.go":           {sync: true, mapr: true, goFns: []string{"acceptPluginConnections"}},
 		"pkg/adaptation/plugin.go":               {sync: true, mapr: true},
 		"pkg/adaptation/result.go":               {mapr: true},
-		"pkg/stub/stub.go":                       {mapr: true},
+		"pkg/stub/stub.go":                       {mapr: true, gates: map[string]string{"connClosed": "stub.connClosed"}},
 		"pkg/runtime-tools/generate/generate.go": {mapr: true},
 		"pkg/net/conn.go":                        {},
 		"pkg/net/multiplex/mux.go":               {mapr: true},
@@ -193,6 +194,11 @@ func (in *inst) run() {
 		}
 		in.curFunc = fd.Name.Name
 		in.block(fd.Body)
+		if g, ok := in.cfg.gates[fd.Name.Name]; ok {
+			fd.Body.List = append([]ast.Stmt{&ast.ExprStmt{X: vs("Gate", &ast.BasicLit{Kind: token.STRING, Value: strconv.Quote(g)})}}, fd.Body.List...)
+			in.needVs = true
+			count(in.rel, "T-gate")
+		}
 	}
 	if in.cfg.chans {
 		in.checkNoStrayChanOps()
